@@ -578,17 +578,31 @@ type vDialResult struct {
 	panic string
 }
 
-// vFindOp: the temporary operator of descriptor fd (allocated by newPollDesc)
-func vFindOp(p *defaultPoll, fd int) *FDOperator {
+// vFindOp: the temporary operator of descriptor fd (allocated by newPollDesc), ignoring operators
+// that were already handed out before this scenario (a leaked one keeps its FD and callbacks)
+func vFindOp(p *defaultPoll, fd int, stale map[*FDOperator]bool) *FDOperator {
 	c := p.opcache
 	lock(&c.locked)
 	defer unlock(&c.locked)
 	for _, op := range c.cache {
-		if op.FD == fd && op.OnWrite != nil {
+		if op.FD == fd && op.OnWrite != nil && !stale[op] {
 			return op
 		}
 	}
 	return nil
+}
+
+func vLiveOps(p *defaultPoll) map[*FDOperator]bool {
+	c := p.opcache
+	m := map[*FDOperator]bool{}
+	lock(&c.locked)
+	defer unlock(&c.locked)
+	for _, op := range c.cache {
+		if op.OnWrite != nil || op.OnHup != nil {
+			m[op] = true
+		}
+	}
+	return m
 }
 
 // vRegistered: the kernel holds a registration for fd (a poller event for the temporary operator
@@ -615,6 +629,7 @@ func vRunScripted(ch vChooser, id int) (string, string) {
 		pipes = append(pipes, p)
 	}
 	baseSlots := vSlotsInUse()
+	stale := vLiveOps(poll)
 	fctx := newVFakeCtx()
 	shim := make(chan *vReq)
 	vShimCh = shim
@@ -672,7 +687,7 @@ func vRunScripted(ch vChooser, id int) (string, string) {
 	}
 	getOp := func() bool {
 		if op == nil {
-			op = vFindOp(poll, cur.fd)
+			op = vFindOp(poll, cur.fd, stale)
 		}
 		if op != nil && (onw == nil || onh == nil) {
 			// newPollDesc assigns FD, OnWrite, OnHup one after the other: take the callbacks once both are there
@@ -681,6 +696,17 @@ func vRunScripted(ch vChooser, id int) (string, string) {
 		return op != nil && onw != nil && onh != nil
 	}
 
+	// the late events of a held token are delivered when due - or at once if the dial goroutine got past the
+	// deferred Free without waiting for the token (then the code under test did not call Free)
+	releaseToken := func() {
+		if tokenHeld {
+			for k := 0; k < len(lateEvs); k++ {
+				deliver(lateEvs[k], true)
+			}
+			op.done()
+			tokenHeld = false
+		}
+	}
 	deadline := time.Now().Add(4 * time.Second)
 	var res vDialResult
 	hung := false
@@ -692,6 +718,7 @@ loop:
 		case r := <-shim:
 			switch r.kind {
 			case "socket":
+				releaseToken()
 				cur = ch.attempt(nsock, fctx.fired())
 				atts = append(atts, cur)
 				op, curWake, waitingFirst, expectPeer = nil, nil, false, false
@@ -731,6 +758,13 @@ loop:
 				r.rep <- vRep{errno: syscall.Errno(cur.e0)}
 			case "getsockopt":
 				waitingFirst = false
+				if curWake == nil {
+					// the code went round the loop where the errno tables say it returns
+					notes += " loop-continued-after-return-condition"
+					releaseToken()
+					curWake = &vWakeRec{pick: 'w', peer: true}
+					cur.wakes = append(cur.wakes, curWake)
+				}
 				j := len(cur.wakes) - 1
 				w := curWake
 				w.pick = 'w'
@@ -792,11 +826,7 @@ loop:
 				break loop
 			}
 			if tokenHeld && time.Now().After(lateDue) {
-				for k := 0; k < len(lateEvs); k++ {
-					deliver(lateEvs[k], true)
-				}
-				op.done()
-				tokenHeld = false
+				releaseToken()
 			}
 			if waitingFirst && curWake != nil && curWake.ctl == 0 && !fctx.fired() && getOp() && atomic.LoadInt32(&op.state) == 1 && vRegistered(cur.fd) {
 				// the goroutine is (about to be) parked in WaitWrite's select with nothing ready: wake it
@@ -813,11 +843,9 @@ loop:
 			}
 		}
 	}
+	releaseToken()
 	if hung {
 		// let the goroutine go (context cancelled), then report
-		if tokenHeld {
-			op.done()
-		}
 		fctx.fire('C')
 		go func() {
 			for {
@@ -1146,16 +1174,17 @@ func (e *vRealEnv) target(q vRealReq) (network, addr string, ok bool) {
 }
 
 type vDialObs struct {
-	conn    Connection
-	class   string
-	timeout bool
-	elapsed time.Duration
-	usable  string
-	creg    bool
-	fdopen  bool
-	slot    bool
-	fd      int
-	panic   string
+	conn      Connection
+	class     string
+	timeout   bool
+	elapsed   time.Duration
+	usable    string
+	usableWhy string
+	creg      bool
+	fdopen    bool
+	slot      bool
+	fd        int
+	panic     string
 }
 
 func vConnParts(c Connection) (*connection, bool) {
@@ -1224,13 +1253,17 @@ func (e *vRealEnv) oneDial(q vRealReq, network, addr string, tag uint32) (o vDia
 			// usable in both directions: echo round trip
 			msg := []byte(fmt.Sprintf("verif-c14-%08x--", tag))
 			o.usable = "0"
-			c.SetReadTimeout(3 * time.Second)
-			if _, werr := c.Writer().WriteBinary(msg); werr == nil {
-				if ferr := c.Writer().Flush(); ferr == nil {
-					if got, rerr := c.Reader().Next(len(msg)); rerr == nil && string(got) == string(msg) {
-						o.usable = "1"
-					}
-				}
+			c.SetReadTimeout(20 * time.Second)
+			if _, werr := c.Writer().WriteBinary(msg); werr != nil {
+				o.usableWhy = "write:" + vSanitize(werr.Error())
+			} else if ferr := c.Writer().Flush(); ferr != nil {
+				o.usableWhy = "flush:" + vSanitize(ferr.Error())
+			} else if got, rerr := c.Reader().Next(len(msg)); rerr != nil {
+				o.usableWhy = "read:" + vSanitize(rerr.Error())
+			} else if string(got) != string(msg) {
+				o.usableWhy = "echo-mismatch:" + vSanitize(string(got))
+			} else {
+				o.usable = "1"
 			}
 		}
 	}
@@ -1282,6 +1315,9 @@ func (e *vRealEnv) run(q vRealReq) {
 				} else {
 					l += fmt.Sprintf("ret conn=%d err=%s timeout=%d expect_timeout=%d elapsed_us=%d usable=%s openfds=%d slots=%d tmpreg=%d creg=%d",
 						vB(o.conn != nil), o.class, vB(o.timeout), vB(expectTimeout), o.elapsed.Microseconds(), o.usable, openfds, slots, tmpreg, vB(o.creg))
+					if o.usableWhy != "" {
+						l += " usable_why=" + o.usableWhy
+					}
 				}
 				lines[g] = append(lines[g], l)
 				if o.conn != nil {
@@ -1518,8 +1554,16 @@ func vScriptedMain(seed int64, n int, opsOut, implOut, replay string) int {
 		return 0
 	}
 	r := rand.New(rand.NewSource(seed))
+	hangs := 0
 	for i := 0; i < n; i++ {
-		emit(vRunScripted(&vRandChooser{r: r}, i))
+		op, impl := vRunScripted(&vRandChooser{r: r}, i)
+		emit(op, impl)
+		if strings.HasPrefix(impl, "hung") {
+			// every hang costs seconds and is already a finding: a few are enough
+			if hangs++; hangs >= 3 {
+				break
+			}
+		}
 	}
 	return 0
 }
